@@ -66,6 +66,7 @@ def tmplChart (r : Reg) (depth : Nat) : Chart where
     | some .handled => true
     | _ => false                      -- no callback / UNHANDLED: SUPER
   depth := depth
+  fall := fun _ => false              -- the template always ends in `else: … SUPER`
 
 /-- one branch of the generated ladder -/
 inductive Branch
@@ -122,12 +123,14 @@ def flatChart (r : Reg) (depth : Nat) : Chart where
     | some .handled => true
     | _ => false
   depth := depth
+  fall := fun _ => false              -- the generated ladder always ends in `else: … SUPER`
 
 /-- two charts that differ only in *how* a state declines an event (UNHANDLED vs SUPER) and in
 whether EXIT is answered HANDLED or falls through -/
 def SameUpToDecline (c1 c2 : Chart) : Prop :=
   (∀ s n, c1.react s n = c2.react s n ∨
           (c1.react s n = .pass ∧ c2.react s n = .unhandled) ∨ (c1.react s n = .unhandled ∧ c2.react s n = .pass)) ∧
-  (∀ s, c1.init s = c2.init s) ∧ c1.depth = c2.depth
+  (∀ s, c1.init s = c2.init s) ∧ c1.depth = c2.depth ∧
+  (∀ s, c1.fall s = c2.fall s)    -- the same handlers end in `else:` (all of them, for well-formed charts)
 
 end Miros.Text
